@@ -196,7 +196,11 @@ static std::vector<LCase> lcase_shrinks(const LCase& c, const vj::Value& detail)
     for (size_t t = 0; t < c.terms.size(); ++t) if (c.terms.size() > 1) { LCase d = c; d.terms.erase(d.terms.begin() + long(t)); out.push_back(d); }
     if (c.inputs.size() <= 3)
         for (size_t k = 0; k < c.inputs.size(); ++k)
-            for (size_t p = 0; p < c.inputs[k].text.size(); ++p) { LCase d = c; d.inputs[k].text.erase(p, 1); out.push_back(d); }
+        {
+            size_t n = c.inputs[k].text.size();
+            if (n > 96) { for (size_t chunk = n / 2; chunk >= 16; chunk /= 2) for (size_t p = 0; p + chunk <= n && out.size() < 300; p += chunk) { LCase d = c; d.inputs[k].text.erase(p, chunk); out.push_back(d); } continue; }
+            for (size_t p = 0; p < n; ++p) { LCase d = c; d.inputs[k].text.erase(p, 1); out.push_back(d); }
+        }
     for (size_t t = 0; t < c.terms.size(); ++t)
         if (c.terms[t].type == 2)
             for (size_t i = 0; i < c.terms[t].data.size(); ++i)
@@ -287,6 +291,26 @@ static LCase gen_lcase(Choice& ch)
         if (rng.chance(1, 8)) in.ws = false;
         c.inputs.push_back(in);
     }
+    // occasionally one lexeme of 65536..70000 bytes (lengths are size_t): a term whose automaton loops on some byte
+    if (ch.chance(1, 10))
+        for (size_t ti = 0; ti < dfas.size(); ++ti)
+        {
+            const rx::Dfa& d = dfas[ti]; int loop_state = -1, loop_byte = -1; std::string prefix;
+            // walk a few steps, look for a self loop on a printable byte in an accepting state
+            int q = 0;
+            for (int step = 0; step < 6 && loop_state < 0; ++step)
+            {
+                for (int cc = 33; cc < 127; ++cc) if (d.tr[size_t(q)][size_t(cc)] == q && d.label[size_t(q)] >= 0) { loop_state = q; loop_byte = cc; break; }
+                if (loop_state >= 0) break;
+                int nxt = -1, nb = -1; for (int cc = 33; cc < 127; ++cc) if (d.tr[size_t(q)][size_t(cc)] >= 0) { nxt = d.tr[size_t(q)][size_t(cc)]; nb = cc; break; }
+                if (nxt < 0) break;
+                prefix += char(nb); q = nxt;
+            }
+            if (loop_state < 0) continue;
+            LInput in; in.text = sample(dfas[rng.below(uint32_t(dfas.size()))]) + " " + prefix + std::string(65536 + rng.below(4500), char(loop_byte)) + " " + sample(dfas[rng.below(uint32_t(dfas.size()))]);
+            c.inputs.push_back(in); c.labels.push_back("giant-lexeme");
+            break;
+        }
     return c;
 }
 
@@ -465,7 +489,8 @@ static Verdict check_lexer(LProp prop, const LCase& c, Stats& st)
         for (auto& l : c.labels) st.label(l);
         int types[3] = {0, 0, 0}; for (auto& t : c.terms) types[t.type]++;
         if (types[0]) st.label("has-char-term"); if (types[1]) st.label("has-string-term"); if (types[2]) st.label("has-regex-term");
-        if (st.want_sample()) { vj::Value s = lcase_json(c); st.sample(s); }
+        bool giant = false; for (auto& in : c.inputs) if (in.text.size() > 400) giant = true;
+        if (st.want_sample() && !giant) { vj::Value s = lcase_json(c); st.sample(s); }
     }
     if (affected) { if (st.counting) st.excluded_known["F5"]++; }
     return Verdict::pass();
